@@ -78,20 +78,32 @@ def one_case(run, seed, idx, unitcell):
     V = np.sqrt(np.linalg.det(G))
     # d* limit giving ~ 60-250 lattice points
     dsmax = float((r.uniform(60, 250) / (4.19 * V)) ** (1 / 3.0))
-    tol = 1e-4
     uc = unitcell.unitcell(cell, sym)
-    try:
-        uc.makerings(dsmax, tol)
-    except IndexError:
-        run.count("cells_skipped_no_reflection")
-        return
+    R = xtal.random_rotation(r, "haar")
+    UB_t = R @ B
+    # history on ONE unitcell object: rings are re-made with other tolerances (this changes ring membership and
+    # numbering for pseudo-symmetric cells); every orientation request afterwards must still be answered for the
+    # rings as they are now
+    tols = [1e-4] if idx % 3 else [1e-4, 2e-2, 1e-4, 5e-3]
+    for hstep, tol in enumerate(tols):
+        try:
+            uc.makerings(dsmax, tol)
+        except IndexError:
+            run.count("cells_skipped_no_reflection")
+            return
+        if hstep:
+            run.count("rering_history_steps")
+        run_pairs(run, r, idx, uc, unitcell, cell, sym, kind, B, G, UB_t, tol, hstep)
+
+
+def run_pairs(run, r, idx, uc, unitcell, cell, sym, kind, B, G, UB_t, tol, hstep):
     nr = len(uc.ringds)
     if nr < 1:
         return
-    R = xtal.random_rotation(r, "haar")
-    UB_t = R @ B
     maxpairs = 15 if run.tier == "quick" else 40
     maxhk = 30 if run.tier == "quick" else 120
+    if hstep:
+        maxpairs, maxhk = maxpairs // 2, maxhk // 3
     rp = [(i, j) for i in range(min(nr, 8)) for j in range(i, min(nr, 8))]
     if len(rp) > maxpairs:
         sel = r.choice(len(rp), maxpairs, replace=False)
@@ -124,11 +136,11 @@ def one_case(run, seed, idx, unitcell):
                 if not equivalent(alt, UB_t):
                     ndeg += 1
             degenerate = ndeg > 0
-            desc = dict(index=idx, cell=cell, sym=sym, kind=kind, ring1=int(r1), ring2=int(r2),
+            desc = dict(index=idx, cell=cell, sym=sym, kind=kind, ring1=int(r1), ring2=int(r2), ring_tol=tol, history_step=hstep,
                         h1=h1.tolist(), h2=h2.tolist(), cos=float(ct), class_size=int(len(win)),
                         inequivalent_in_class=int(ndeg))
             for mode, crange in (("nearest", -1.0), ("range", 0.002)):
-                run.case((kind, sym, int(r1), int(r2), tuple(sorted((tuple(np.abs(h1)), tuple(np.abs(h2))))), mode),
+                run.case((kind, sym, int(r1), int(r2), tuple(sorted((tuple(np.abs(h1)), tuple(np.abs(h2))))), mode, hstep),
                          nontrivial=(len(win) > 1 or r1 != r2),
                          sample=dict(desc, mode=mode))
                 try:
@@ -206,3 +218,4 @@ def check(run, replay=None):
     run.require_counter("orient_calls", 500)
     run.require_counter("nearest_nondegenerate", 50)
     run.require_counter("nearest_degenerate", 5)
+    run.require_counter("rering_history_steps", 5)
